@@ -150,6 +150,12 @@ func judgeReplay(v ViolationJSON, out string) string {
 		if line == fmt.Sprintf("REPRODUCED assert %q", v.Label) {
 			return line
 		}
+		// a different assertion of the same harness fails natively on the solver's input (e.g. the native
+		// branch of the harness observes the real runtime where the symbolic branch reads a stub): the
+		// property is violated on the real code all the same - unless it is the harness' own sanity check
+		if strings.HasPrefix(line, "REPRODUCED assert") && !strings.Contains(line, "ORACLE-MISMATCH") && !strings.Contains(line, "ASSUMPTION-VIOLATED") {
+			return line + " (native assertion differs from the symbolic one)"
+		}
 	case "alloc":
 		if oom {
 			return "REPRODUCED fatal out of memory"
